@@ -81,6 +81,8 @@ def run(ctx):
         ro = vlib.run_impl("run26", rs_cases)
         for c, c2, a, b in zip(py_cases, rs_cases, po, ro):
             ctx.evaluations += 1; ctx.programs += 1
+            if len(ctx.samples) < 12 and ctx.rng.random() < 0.02:
+                ctx.samples.append({"family": "py26/run26:" + what, "case": c[:300], "model": (b or "")[:300], "impl": (a or "")[:300]})
             if c not in ctx.distinct:
                 ctx.distinct.add(c)
                 if len(c) > 30:
@@ -196,6 +198,8 @@ def run(ctx):
     ro = vlib.run_impl("run26", vc)
     for c, a, b in zip(vc, po, ro):
         ctx.evaluations += 1; ctx.programs += 1
+        if len(ctx.samples) < 12:
+            ctx.samples.append({"family": "py26/run26:view", "case": c[:300], "model": (b or "")[:300], "impl": (a or "")[:300]})
         if a != b:
             ctx.violation("LazyNode atom/pair view differs from the Rust tree",
                           {"case": c[:3000], "family": "py26", "runner": "pywheel", "impl": a, "rust": b})
